@@ -444,82 +444,114 @@ func paramInvokedUnderLock(c *core.Ctx, a *Anchors, g *core.Func, idx int, depth
 	return allHeld && forwardedOK
 }
 
-// c07r5: release functions of the lock test the bit before clearing it and recycling the bit number.
+// c07r5: the lock bit is tested before it is cleared and its number recycled. The functions that clear a bit of the lock
+// word directly (a call on the lock word that stores into it, with the token as argument) are found by effect; each is
+// fine if the clearing is dominated, inside it, by a test of that same token's bit — or, for a helper without its own
+// test, if every call of the helper is dominated by such a test in the caller.
 func c07r5(c *core.Ctx) {
 	a := GetAnchors(c)
 	m := c.M
-	n := 0
-	// a release helper that is only called from other release functions of the lock is checked through them:
-	// its call site is a write of the lock word in the caller and must be preceded by the caller's test
-	calledByRelease := map[*core.Func]bool{}
-	for _, cs := range m.CallSites() {
-		if cs.Callee != nil && cs.Caller != cs.Callee && cs.Caller.Recv == "lock" && a.Release[cs.Caller] && cs.Callee.Recv == "lock" && a.Release[cs.Callee] {
-			calledByRelease[cs.Callee] = true
+	bitTest := func(ff *core.Func, at core.Atom, wantTruth bool) bool {
+		call, ok := ast.Unparen(at.Expr).(*ast.CallExpr)
+		if !ok || len(call.Args) != 1 {
+			return false
 		}
+		sel, ok := ast.Unparen(call.Fun).(*ast.SelectorExpr)
+		if !ok {
+			return false
+		}
+		if ff.Sig == nil || ff.Sig.Params().Len() == 0 {
+			return false
+		}
+		if id, ok := ast.Unparen(call.Args[0]).(*ast.Ident); !ok || m.Info.ObjectOf(id) != ff.Sig.Params().At(0) {
+			return false
+		}
+		if m.AccessPath(ff, sel.X).Has("lock.locks") {
+			return at.Truth == wantTruth
+		}
+		return false
 	}
-	for _, f := range m.Funcs {
-		if f.Recv != "lock" || !a.Release[f] {
-			continue
+	// clearing sites: calls on the lock word / the bit pool of a lock that store into it, inside release-role functions
+	clearsDirectly := func(f *core.Func, x ast.Node) string {
+		call, ok := x.(*ast.CallExpr)
+		if !ok {
+			return ""
 		}
-		if calledByRelease[f] {
-			external := false
-			for _, cs := range m.CallSites() {
-				if cs.Callee == f && !(cs.Caller.Recv == "lock" && a.Release[cs.Caller]) {
-					external = true
-				}
-			}
-			if !external {
-				continue
+		sel, ok := ast.Unparen(call.Fun).(*ast.SelectorExpr)
+		if !ok {
+			return ""
+		}
+		p := m.AccessPath(f, sel.X)
+		if !(p.Has("lock.locks") || p.Has("lock.bitPool")) {
+			return ""
+		}
+		for _, s := range c.Eff.StoresAt(f, call) {
+			if s.Path.Has("lock.locks") || s.Path.Has("lock.bitPool") {
+				return "write to " + s.Path.Last() + " via " + strings.Join(s.Via, "->")
 			}
 		}
-		n++
+		return ""
+	}
+	guardedIn := func(f *core.Func, isNeed func(ast.Node) string) []core.Witness {
 		spec := core.GuardSpec{
-			GuardAtom: func(ff *core.Func, at core.Atom) bool {
-				if !at.Truth {
-					return false
-				}
-				call, ok := ast.Unparen(at.Expr).(*ast.CallExpr)
-				if !ok {
-					return false
-				}
-				sel, ok := ast.Unparen(call.Fun).(*ast.SelectorExpr)
-				if !ok || len(call.Args) != 1 {
-					return false
-				}
-				// the tested bit must be the token parameter
-				if ff.Sig == nil || ff.Sig.Params().Len() == 0 {
-					return false
-				}
-				if id, ok := ast.Unparen(call.Args[0]).(*ast.Ident); !ok || m.Info.ObjectOf(id) != ff.Sig.Params().At(0) {
-					return false
-				}
-				return m.AccessPath(ff, sel.X).Has("lock.locks")
-			},
+			Only:      f,
+			GuardAtom: func(ff *core.Func, at core.Atom) bool { return bitTest(ff, at, true) },
 			Needs: func(ff *core.Func, x ast.Node) []core.Witness {
-				call, ok := x.(*ast.CallExpr)
-				if !ok {
-					return nil
+				if w := isNeed(x); w != "" {
+					return []core.Witness{{What: w}}
 				}
-				var out []core.Witness
-				for _, s := range c.Eff.StoresAt(ff, call) {
-					if s.Path.Has("lock.locks") || s.Path.Has("lock.bitPool") {
-						out = append(out, core.Witness{What: "write to " + s.Path.Last() + " via " + strings.Join(s.Via, "->")})
-						break
-					}
-				}
-				return out
+				return nil
 			},
 			SkipCallee: func(*core.Func) bool { return true },
 		}
-		res := singleFuncGuard(m, f, spec)
+		return m.MustPrecede(spec).Unguarded[f]
+	}
+	n := 0
+	for _, f := range m.Funcs {
+		if f.Recv != "lock" || !a.Release[f] || f.Body == nil {
+			continue
+		}
+		direct := false
+		core.InspectNoLits(f.Body, func(x ast.Node) bool {
+			if clearsDirectly(f, x) != "" {
+				direct = true
+			}
+			return true
+		})
+		if !direct {
+			continue
+		}
+		n++
+		res := guardedIn(f, func(x ast.Node) string { return clearsDirectly(f, x) })
 		if len(res) == 0 {
-			c.OK("C07/R5", f.Name, c.At(f.Pos()), "the lock bit is tested (and an unset bit panics) before it is cleared and its number recycled")
+			c.OK("C07/R5", f.Name, c.At(f.Pos()), "the lock bit is tested before it is cleared and its number recycled")
+			continue
+		}
+		// a helper without its own test: every caller must test before calling
+		callers, bad := 0, ""
+		for _, cs := range m.CallSites() {
+			if cs.Callee != f {
+				continue
+			}
+			callers++
+			call := cs.Call
+			if w := guardedIn(cs.Caller, func(x ast.Node) string {
+				if x == ast.Node(call) {
+					return "call of " + f.Name
+				}
+				return ""
+			}); len(w) > 0 {
+				bad = cs.Caller.Name
+			}
+		}
+		if callers > 0 && bad == "" {
+			c.OK("C07/R5", f.Name, c.At(f.Pos()), "clears the bit without a test of its own; every caller tests the bit before the call")
 		} else {
-			c.Violation("C07/R5", f.Name, c.At(res[0].Node.Pos()), fmt.Sprintf("%s: %s without a preceding test of the token's lock bit (unbalanced unlock would go undetected and corrupt the bit pool)", f.Name, res[0].What))
+			c.Violation("C07/R5", f.Name, c.At(res[0].Node.Pos()), fmt.Sprintf("%s: %s without a preceding test of the token's lock bit%s (unbalanced unlock would go undetected and corrupt the bit pool)", f.Name, res[0].What, map[bool]string{true: " in " + f.Name + " or in its caller " + bad, false: ""}[bad != ""]))
 		}
 	}
 	if n == 0 {
-		c.Undecide("C07/R5", "roles", "no release function on type lock")
+		c.Undecide("C07/R5", "roles", "no release function on type lock clears a lock bit directly")
 	}
 }
 
@@ -661,6 +693,8 @@ func closeIdempotent(c *core.Ctx, a *Anchors, f *core.Func) (bool, string) {
 		truth  bool
 		// closes reports whether storing v into the marker makes the test fail next time
 		closes func(v constant.Value) bool
+		// viaField: the test is a pure boolean method of the object `marker`; it compares this field of its receiver
+		viaField string
 	}
 	var cands []cand
 	seenCand := map[string]bool{}
@@ -686,6 +720,31 @@ func closeIdempotent(c *core.Ctx, a *Anchors, f *core.Func) (bool, string) {
 				return
 			}
 			cd = cand{marker: e, closes: func(v constant.Value) bool { return v.Kind() == constant.Bool && constant.BoolVal(v) != at.Truth }}
+		case *ast.CallExpr:
+			// a pure boolean method of a part of the query (e.g. its cursor) whose body is `return field <op> const`
+			sel, ok := ast.Unparen(x.Fun).(*ast.SelectorExpr)
+			k, cal, _ := m.Callee(x)
+			if !ok || k != core.CallStatic || cal.Body == nil || !returnsBool(cal) || len(x.Args) != 0 || len(c.Eff.Stores(cal)) != 0 || len(cal.Body.List) != 1 {
+				return
+			}
+			rs, ok := cal.Body.List[0].(*ast.ReturnStmt)
+			if !ok || len(rs.Results) != 1 {
+				return
+			}
+			be, ok := ast.Unparen(rs.Results[0]).(*ast.BinaryExpr)
+			if !ok {
+				return
+			}
+			rv, okc := m.Info.Types[be.Y]
+			fk := fieldKeyOf(m, be.X)
+			if !okc || rv.Value == nil || fk == "" {
+				return
+			}
+			if bsel, ok := ast.Unparen(be.X).(*ast.SelectorExpr); !ok || !isIdentOf(m, bsel.X, cal.Sig.Recv()) {
+				return
+			}
+			op, kv := be.Op, rv.Value
+			cd = cand{marker: sel.X, viaField: fk, closes: func(v constant.Value) bool { return constant.Compare(v, op, kv) != at.Truth }}
 		default:
 			return
 		}
@@ -751,6 +810,45 @@ func closeIdempotent(c *core.Ctx, a *Anchors, f *core.Func) (bool, string) {
 		// (3) a closing constant store on every path through R
 		mtext := m.ExprString(ast.Unparen(cd.marker))
 		isClosingStore := func(n ast.Node) bool {
+			if cd.viaField != "" {
+				// a method of the same object that stores a closing constant into the tested field
+				call, ok := n.(*ast.CallExpr)
+				if !ok {
+					return false
+				}
+				sel, ok := ast.Unparen(call.Fun).(*ast.SelectorExpr)
+				k, cal, _ := m.Callee(call)
+				if !ok || k != core.CallStatic || cal.Body == nil || m.ExprString(ast.Unparen(sel.X)) != mtext {
+					return false
+				}
+				found := false
+				core.InspectNoLits(cal.Body, func(y ast.Node) bool {
+					if as, ok := y.(*ast.AssignStmt); ok && len(as.Lhs) == len(as.Rhs) {
+						for i, l := range as.Lhs {
+							if fieldKeyOf(m, l) == cd.viaField {
+								if bsel, ok := ast.Unparen(l).(*ast.SelectorExpr); ok && isIdentOf(m, bsel.X, cal.Sig.Recv()) {
+									if tv, ok := m.Info.Types[as.Rhs[i]]; ok && tv.Value != nil && cd.closes(tv.Value) {
+										found = true
+									}
+								}
+							}
+						}
+					}
+					return true
+				})
+				return found && passedOnAllPaths(m, cal, func(z ast.Node) bool {
+					as, ok := z.(*ast.AssignStmt)
+					if !ok {
+						return false
+					}
+					for _, l := range as.Lhs {
+						if fieldKeyOf(m, l) == cd.viaField {
+							return true
+						}
+					}
+					return false
+				})
+			}
 			as, ok := n.(*ast.AssignStmt)
 			if !ok {
 				return false
